@@ -280,6 +280,7 @@ class Analyzer:
         self.inlined_calls: List[Tuple[str, str, int]] = []
         self.spliced_at: Dict[int, FuncInfo] = {}  # id(call expression) -> helper spliced there
         self.partial_syn: Dict[tuple, ast.Call] = {}  # id(call of a partial object) -> the equivalent direct call F(frozen args + own args)
+        self.syn_arg_frame: Dict[int, tuple] = {}  # argument of a stand-in call written in another frame -> (function, env) of that frame
         self.partial_frame: Dict[tuple, tuple] = {}  # ... and the frame (function, env) in which the partial was built
         self.await_syn: Dict[int, ast.Await] = {}
         self.awaited_via: Dict[int, ast.Call] = {}  # id(await expression) -> the call whose result it awaits through a local
@@ -1177,6 +1178,8 @@ class Builder:
             if isinstance(a_, ast.Starred) and isinstance(a_.value, ast.Name) and self.env and a_.value.id in self.env \
                     and isinstance(self.env[a_.value.id][1], ast.Tuple) and self.f.node.args.vararg is not None and self.f.node.args.vararg.arg == a_.value.id:
                 args2 += list(self.env[a_.value.id][1].elts)
+                for x_ in self.env[a_.value.id][1].elts:
+                    self.an.syn_arg_frame[id(x_)] = (self.env[a_.value.id][0], self.env[a_.value.id][2])
             elif isinstance(a_, ast.Starred):
                 return None, None
             else:
@@ -1187,6 +1190,8 @@ class Builder:
                     and self.f.node.args.kwarg is not None and self.f.node.args.kwarg.arg == k_.value.id:
                 d_ = self.env[k_.value.id][1]
                 kws2 += [ast.keyword(arg=kk.value, value=vv) for kk, vv in zip(d_.keys, d_.values)]
+                for x_ in d_.values:
+                    self.an.syn_arg_frame[id(x_)] = (self.env[k_.value.id][0], self.env[k_.value.id][2])
             elif k_.arg is None:
                 return None, None
             else:
